@@ -642,7 +642,10 @@ def transform_fn(text, spec):
                 edits.append((mm.start(), mm.end(), dst))
 
     # R11 exact textual rewrites (inside the body only); an absent source text is a lost anchor
-    for frm, to in spec.get('rewrites', []):
+    opt_from = {a for a, _ in spec.get('rewrites_opt', [])}
+    for frm, to in list(spec.get('rewrites', [])) + list(spec.get('rewrites_opt', [])):
+        if frm in opt_from and '{id}' not in frm and t.find(frm, sh.bopen) < 0:
+            continue        # `rewrite?`: nothing to do when the text does not occur
         if '{id}' in frm or '.' in frm or ' ' in frm:
             # `{id}` stands for one identifier (so that a renamed receiver does not lose the anchor)
             # method chains may be broken over lines and re-indented: white space is flexible between the tokens of the source text
@@ -650,6 +653,8 @@ def transform_fn(text, spec):
                                          for tok in frm.split()))
             lo = sh.popen if frm.startswith('&') or frm.startswith('impl ') or '<' in frm else sh.bopen      # type texts may sit in the parameter list or be the return type
             hits = [mm for mm in rx.finditer(t) if lo < mm.start() < sh.bclose]
+            if not hits and frm in opt_from:
+                continue
             if not hits:
                 raise ExtractError('R11: text to rewrite not found: %s' % frm)
             for mm in hits:
